@@ -476,6 +476,12 @@ theorem guardBlock_none (g : String) (sp o : Outcome Unit) (hsp : WriterOk sp) (
   | ok u => cases u; exact guardWriter_none g o ho hc
   | error e => exact guardWriter_none g _ hsp hc
 
+theorem closeBlock_none (sp o : Outcome Unit) (hsp : WriterOk sp) (ho : WriterOk o) : closeBlock sp o = none := by
+  have hg : closeStartPacketGuarded = true := by decide
+  unfold closeBlock
+  rw [if_pos hg]
+  exact guardBlock_none _ sp o hsp ho catch_close_stop
+
 theorem datagramsToSend_ok (s : St) (w : Writers) (hi : ConnInv s) (hw0 : WriterOk w.startPacket)
     (hw1 : WriterOk w.closeFrame) (hw2 : WriterOk w.handshake) (hw3 : WriterOk w.application) :
     ∃ s', datagramsToSend s w = .ok s' ∧ ConnInv s' := by
@@ -489,7 +495,7 @@ theorem datagramsToSend_ok (s : St) (w : Writers) (hi : ConnInv s) (hw0 : Writer
     have hnp : 0 < s.nPaths := by omega
     have hin : s.initialized = true := h6 hnp
     have hne' : s.state.isEnd = false := by cases h : s.state.isEnd <;> simp_all
-    rw [guardBlock_none _ _ _ hw0 hw1 catch_close_stop, guardBlock_none _ _ _ hw0 hw2 catch_handshake_stop,
+    rw [closeBlock_none _ _ hw0 hw1, guardBlock_none _ _ _ hw0 hw2 catch_handshake_stop,
       guardBlock_none _ _ _ hw0 hw3 catch_application_stop]
     split
     · refine ⟨_, rfl, ?_⟩
